@@ -276,7 +276,7 @@ def check_signer_and_only(cfg, crate, rep):
                 callers.add(name)
         for n in common.hir_walk(b["hir"]):
             if n["k"] == "Struct" and (n.get("adt") or "").endswith(("certificate::Certificate", "csr::CertificateSigningRequest", "crl::CertificateRevocationList")):
-                lits.setdefault(n["adt"], set()).add(name)
+                lits.setdefault(n["adt"], set()).update(common.known_owners(crate, name))
     rep.ob("C01.only", "%s|callers-of-sign" % cfg, callers == {SIGN_DER}, "KeyPair::sign is called only by sign_der", expected=[SIGN_DER], found=sorted(callers))
     allowed = {"certificate::Certificate": {"certificate::CertificateParams::signed_by", "certificate::CertificateParams::self_signed", "csr::CertificateSigningRequestParams::signed_by"},
                "csr::CertificateSigningRequest": {CSR_FN}, "crl::CertificateRevocationList": {"crl::CertificateRevocationListParams::signed_by"}}
